@@ -229,7 +229,9 @@ TrigSet(w, imp) ==
     (IF Excluded_F_C16_1(w, imp) THEN {1} ELSE {}) \cup (IF Excluded_F_C16_2(w, imp) THEN {2} ELSE {}) \cup
     (IF Excluded_F_C16_3(w, imp) THEN {3} ELSE {}) \cup (IF Excluded_F_C16_4(w, imp) THEN {4} ELSE {}) \cup
     (IF Excluded_F_C16_5(w, imp) THEN {5} ELSE {})
-Excluded(w, imp) == TrigSet(w, imp) # {}
+\* F-C16-1 and F-C16-4 are REPAIRED in /repo (9f9a196, 169b78e): their constructs are generated again
+\* (the predicates still compute the trigger of a failing case)
+Excluded(w, imp) == TrigSet(w, imp) \ {1, 4} # {}
 
 SynthOptions(w, excl) ==
     LET S  == {imp \in ImpOptions(w) : ~Mixed(w, imp) /\ (excl => ~Excluded(w, imp))}
